@@ -1,7 +1,13 @@
+/-
+  C06 — the filtered event table as a conditional law of the categorical counts: `phys_perf` is the
+  probability that the draws deliver at least `f` photons, every entry of the filtered table is the
+  conditional probability of its event.
+-/
 import PercevalModel.Lemmas.C06Cat
 import PercevalModel.Lemmas.C06Loss
 set_option linter.unusedSimpArgs false
 namespace PM.C06
+
 
 section
 variable {α β : Type}
@@ -79,7 +85,6 @@ theorem physPerf_eq_cat (P : Params) (n f : ℕ) :
       (fun e => by simp only [evPhotons, pow_add, pow_mul])] at h2
     simp only [table, if_true, tableRaw]
     rw [h2]
-    ring
   have hmass : mass (table P n 0) = mass (iid (catDist P) n) := by
     rw [mass_iid, catDist_mass, one_pow]
     have := E_tableRawOf_weight (pSignal P) (pG2 P) (pDuo P) (pNone P) 1 1 1 n
